@@ -37,6 +37,11 @@ def run_table(tier, seed):
                     c = {"control": ctl, "iteration_limit": 40,
                          "params": {"collect_path": True, "precision": "Single", "lamb_init": linit, "validate_input": vi}}
                     out.append({"t": "run", "spec": spec, "cfg": c, "sc": G.scalings_of(spec, (0, 1))[si % 2]})
+    # long paths: thousands of accepted steps with path collection
+    for prec in ("Double", "Single"):
+        c = {"control": "Fixed", "iteration_limit": 2600 if tier == "quick" else 9000,
+             "params": {"collect_path": True, "precision": prec, "lamb_init": 400.0}}
+        out.append({"t": "run", "spec": G.core_specs()[0], "cfg": c, "sc": None})
     return out
 
 
